@@ -26,12 +26,14 @@ pub fn generate_workload(r: &mut Rng) -> WProg {
     let shapes: Vec<ShapeSpec> = (0..n).map(|_| gen_spec(r, ty, &k)).collect();
     let mut calls = Vec::new();
     if r.chance(1, 10) {
-        calls.push(WCall::FinRetry);
+        calls.push(if r.chance(1, 2) { WCall::Fin } else { WCall::FinRetry });
     }
     for i in 0..n {
         calls.push(WCall::W(i));
         if r.chance(1, 3) {
-            calls.push(WCall::FinRetry);
+            // mostly retried at once when it fails; sometimes the caller just goes on and
+            // finalizes again later
+            calls.push(if r.chance(1, 3) { WCall::Fin } else { WCall::FinRetry });
             if r.chance(1, 3) {
                 calls.push(WCall::FinRetry);
             }
@@ -173,21 +175,16 @@ fn run_faulted(scn: &WfScn, g: &Golden, ctx: &mut Ctx) {
     }
     // finalize retry: a one-shot fault that hit a finalize's first attempt (and nothing else)
     let one_shot = scn.plan.faults.iter().all(|f| !f.persistent) && scn.plan.dev.iter().all(|d| d.capacity.is_none());
-    let all_finalizes_eventually_ok = {
-        // for every finalize call of the program, its last attempt returned Ok
-        let mut ok = true;
-        for (i, m) in run.marks.iter().enumerate() {
-            if m.call == "finalize" {
-                let is_last = run.marks.get(i + 1).map(|n| !(n.call == "finalize" && n.is_retry && n.call_no == m.call_no)).unwrap_or(true);
-                if is_last && !m.res.is_ok() {
-                    ok = false;
-                }
-            }
-        }
-        ok
-    };
+    // "A finalize that failed can be called again and, once the destination works, completes both
+    // files exactly as an undisturbed run would": every fault landed inside a finalize call
+    // (retried at once or not), none in a write or in the drop; the history always ends with the
+    // finalize run by Drop, which meets no fault.
+    let all_finalizes_eventually_ok = true;
     if fault_in_retry {
         ctx.stats.reach("fault-in-finalize-retry");
+    }
+    if run.marks.iter().any(|m| m.call == "finalize" && !m.is_retry && !m.res.is_ok() && matches!(scn.w.calls.get(m.call_no), Some(WCall::Fin))) {
+        ctx.stats.reach("failed-finalize-not-retried-at-once");
     }
     if one_shot && fault_in_finalize_first_attempt && !fault_in_write && !fault_in_drop && all_finalizes_eventually_ok {
         ctx.stats.reach("finalize-retry-judged");
@@ -305,8 +302,8 @@ pub fn unit_c05(seed: u64, ctx: &mut Ctx, ctl: &mut UnitCtl) {
     let mut calls: Vec<WCall> = Vec::new();
     for i in 0..n {
         calls.push(WCall::W(i));
-        if r.chance(1, 4) {
-            calls.push(WCall::Fin);
+        if r.chance(1, 3) {
+            calls.push(if r.chance(1, 2) { WCall::Fin } else { WCall::FinRetry });
         }
     }
     let w = WProg { shapes, others: vec![], calls, ending: if r.chance(1, 2) { Ending::Drop } else { Ending::FinDrop }, with_shx: r.chance(1, 2), stack: StackCfg::Direct };
@@ -318,24 +315,48 @@ pub fn unit_c05(seed: u64, ctx: &mut Ctx, ctl: &mut UnitCtl) {
         ctl.after_case(ctx, || Scenario::WFault(WfScn { w: w.clone(), plan: Plan::default() }));
         return;
     }
-    let firsts: Vec<(usize, u32)> = {
+    // for every write call: the .shp operation index of its first *record* operation (for the first
+    // write of the file that is after the header was reserved); for every finalize: its .shp op range
+    let (firsts, fins): (Vec<(usize, u32)>, Vec<(u32, u32)>) = {
         let wb = world.borrow();
-        run.marks
+        let shp_ops_before = |ev: usize| wb.log[..ev].iter().filter(|e| e.dev as usize == SHP).count() as u32;
+        let firsts = run
+            .marks
             .iter()
             .filter(|m| m.call.starts_with("write("))
-            .map(|m| (m.call_no, wb.log[..m.first_ev].iter().filter(|e| e.dev as usize == SHP).count() as u32))
-            .collect()
+            .map(|m| {
+                let rec_ev = (m.first_ev..m.end_ev).find(|i| wb.log[*i].dev as usize == SHP && wb.log[*i].kind == OpKind::Write && wb.log[*i].pos >= 100).unwrap_or(m.first_ev);
+                (m.call_no, shp_ops_before(rec_ev))
+            })
+            .collect();
+        let fins = run.marks.iter().filter(|m| m.call == "finalize").map(|m| (shp_ops_before(m.first_ev), shp_ops_before(m.end_ev))).filter(|(a, b)| b > a).collect();
+        (firsts, fins)
     };
-    for (call_no, op) in firsts.into_iter().skip(1) {
-        let mut plan = Plan::default();
-        plan.faults.push(Fault { dev: SHP as u8, at: op, kind: FaultKind::Err((op % 4) as u8), persistent: false });
-        let scn = WfScn { w: w.clone(), plan };
-        if !ctl.before_case(|| Scenario::WFault(scn.clone())) {
-            continue;
+    for (call_no, op) in firsts {
+        let mut plans = vec![{
+            let mut plan = Plan::default();
+            plan.faults.push(Fault { dev: SHP as u8, at: op, kind: FaultKind::Err((op % 4) as u8), persistent: false });
+            plan
+        }];
+        // the same, plus a later finalize that fails once at one of its operations (retried at once
+        // by a FinRetry call of the workload, or simply followed by the next finalize / the drop)
+        for (a, b) in fins.iter().filter(|(a, _)| *a > op) {
+            for k in [*a, (*a + *b) / 2, *b - 1] {
+                let mut plan = Plan::default();
+                plan.faults.push(Fault { dev: SHP as u8, at: op, kind: FaultKind::Err((op % 4) as u8), persistent: false });
+                plan.faults.push(Fault { dev: SHP as u8, at: k, kind: FaultKind::Err(((k + 1) % 4) as u8), persistent: false });
+                plans.push(plan);
+            }
         }
-        ctx.stats.evaluations += 1;
-        execute_c05(&scn, Some(call_no), ctx);
-        ctl.after_case(ctx, || Scenario::WFault(scn.clone()));
+        for plan in plans {
+            let scn = WfScn { w: w.clone(), plan };
+            if !ctl.before_case(|| Scenario::WFault(scn.clone())) {
+                continue;
+            }
+            ctx.stats.evaluations += 1;
+            execute_c05(&scn, Some(call_no), ctx);
+            ctl.after_case(ctx, || Scenario::WFault(scn.clone()));
+        }
     }
 }
 
@@ -352,32 +373,38 @@ pub fn execute_c05(scn: &WfScn, expect_failed_call: Option<usize>, ctx: &mut Ctx
     }
     let wb = world.borrow();
     ctx.stats.absorb_world(&wb);
-    // which calls failed, and did each failing call transfer nothing at all?
+    // a failed write is "clean" if it transferred no record byte (nothing at or beyond byte 100 of
+    // either file); failed finalize calls do not matter here (they rewrite the headers only)
     let mut failed_clean = true;
-    let mut failed_calls = Vec::new();
+    let mut failed_writes = Vec::new();
     for m in &run.marks {
         if m.res.is_ok() {
             continue;
         }
-        failed_calls.push(m.call_no);
-        let moved: u64 = wb.log[m.first_ev..m.end_ev].iter().map(|e| e.moved as u64).sum();
-        let events = m.end_ev - m.first_ev;
-        if !m.call.starts_with("write(") || moved != 0 || events != 1 {
+        if matches!(m.res, CallRes::Panic(..)) {
+            return;
+        }
+        if m.call == "finalize" || m.call == "drop" {
+            ctx.stats.reach("c05-history-with-failed-finalize");
+            continue;
+        }
+        failed_writes.push(m.call_no);
+        let record_bytes: u64 = wb.log[m.first_ev..m.end_ev].iter().filter(|e| e.kind == OpKind::Write && e.pos + e.moved as u64 > 100).map(|e| e.moved as u64).sum();
+        if !m.call.starts_with("write(") || record_bytes != 0 {
             failed_clean = false;
         }
     }
-    if failed_calls.is_empty() || !failed_clean {
+    if failed_writes.is_empty() || !failed_clean {
         ctx.stats.reach("c05-fault-not-a-clean-failed-write");
         return;
     }
     if let Some(c) = expect_failed_call {
-        if failed_calls != vec![c] {
+        if !failed_writes.contains(&c) {
             ctx.stats.reach("c05-fault-hit-another-call");
         }
     }
-    // never the first write of the file (it reserves the header before the record)
-    let first_write = run.marks.iter().find(|m| m.call.starts_with("write(")).map(|m| m.call_no);
-    if failed_calls.iter().any(|c| Some(*c) == first_write) {
+    // the last finalize of the history (the one run by Drop at the latest) must have gone through
+    if wb.log[run.marks.last().map(|m| m.first_ev).unwrap_or(0)..].iter().any(|e| e.err.is_some()) {
         return;
     }
     ctx.stats.reach("c05-clean-failed-write-judged");
